@@ -201,15 +201,21 @@ class Slice:
         return SChar(self.text.ch(pos), self.text, pos)
 
     def getslice(self, I, lo, hi):
-        if hi is not None:
-            raise OutOfSubset("slice with an upper bound")
-        if lo is None:
-            return self
-        a = zarith(lo)
         ln = self.hi - self.lo
-        # python clips: s[a:] with a > len is empty, negative a counts from the end
-        start = z3.If(a >= 0, z3.If(a <= ln, self.lo + a, self.hi), z3.If(-a <= ln, self.hi + a, self.lo))
-        return Slice(self.text, start, self.hi)
+
+        def clip(x):
+            # python clips slice bounds: beyond the end -> the end, negative counts from the end (not below 0)
+            a = zarith(x)
+            return z3.If(a >= 0, z3.If(a <= ln, self.lo + a, self.hi), z3.If(-a <= ln, self.hi + a, self.lo))
+
+        start = self.lo if lo is None else clip(lo)
+        stop = self.hi if hi is None else clip(hi)
+        if lo is None and hi is None:
+            return self
+        if hi is not None:
+            # an empty slice when the bounds cross
+            stop = z3.If(stop >= start, stop, start)
+        return Slice(self.text, start, stop)
 
     def to_list(self, I):
         return self  # list(s): the same sequence of characters
